@@ -18,21 +18,29 @@ _SCOPES = (ast.FunctionDef, ast.AsyncFunctionDef, ast.Lambda, ast.ClassDef)
 
 
 def iter_functions(tree: ast.AST, prefix: str = "") -> Iterator[Tuple[str, ast.AST]]:
+    """(qualified name, node); a name defined several times in one scope (SLY grammar actions, typing overloads) gets #2, #3 ..."""
+    seen: Dict[str, int] = {}
+    for q, n in _iter_functions(tree, prefix):
+        seen[q] = seen.get(q, 0) + 1
+        yield (q if seen[q] == 1 else f"{q}#{seen[q]}"), n
+
+
+def _iter_functions(tree: ast.AST, prefix: str = "") -> Iterator[Tuple[str, ast.AST]]:
     for n in getattr(tree, "body", []):
         if isinstance(n, (ast.FunctionDef, ast.AsyncFunctionDef)):
             q = prefix + n.name
             if any(isinstance(d, ast.Attribute) and d.attr == "setter" for d in n.decorator_list):
                 q += ".setter"
             yield q, n
-            yield from iter_functions(n, q + ".<locals>.")
+            yield from _iter_functions(n, q + ".<locals>.")
         elif isinstance(n, ast.ClassDef):
-            yield from iter_functions(n, prefix + n.name + ".")
+            yield from _iter_functions(n, prefix + n.name + ".")
         elif isinstance(n, (ast.If, ast.Try, ast.With, ast.For, ast.While)):
             for fld in ("body", "orelse", "finalbody", "handlers"):
                 sub = getattr(n, fld, None)
                 if isinstance(sub, list):
                     holder = ast.Module(body=[x for x in sub if isinstance(x, ast.stmt)], type_ignores=[])
-                    yield from iter_functions(holder, prefix)
+                    yield from _iter_functions(holder, prefix)
 
 
 def _own_nodes(fn: ast.AST) -> Iterator[ast.AST]:
@@ -153,13 +161,26 @@ def first_binding_order(fn: ast.AST, names: Set[str]) -> Dict[str, int]:
     return {v: i for i, v in enumerate(order)}
 
 
+def single_rhs(fn: ast.AST, names: Set[str]) -> Dict[str, str]:
+    """For locals bound exactly once by a plain `name = expr`: the RHS text with local names abstracted."""
+    count: Dict[str, int] = {}
+    rhs: Dict[str, ast.expr] = {}
+    for n in _own_nodes(fn):
+        if isinstance(n, ast.Name) and isinstance(n.ctx, ast.Store) and n.id in names:
+            count[n.id] = count.get(n.id, 0) + 1
+        if isinstance(n, ast.Assign) and len(n.targets) == 1 and isinstance(n.targets[0], ast.Name) and n.targets[0].id in names:
+            rhs[n.targets[0].id] = n.value
+    return {v: _abs(e, names) for v, e in rhs.items() if count.get(v) == 1}
+
+
 def table_for(tree: ast.Module) -> Dict[str, Dict[str, List]]:
     out = {}
     for q, fn in iter_functions(tree):
         s = signatures(fn)
         if s:
             o = first_binding_order(fn, set(s))
-            out[q] = {v: [sig, o.get(v, 999)] for v, sig in s.items()}
+            r = single_rhs(fn, set(s))
+            out[q] = {v: [sig, o.get(v, 999)] + ([r[v]] if v in r else []) for v, sig in s.items()}
     return out
 
 
@@ -217,3 +238,110 @@ def restore(relpath: str, tree: ast.Module, src_digest: str = "") -> int:
                 node.name = ren[node.name]
         n += len(ren)
     return n
+
+
+def _stmt_lists(fn: ast.AST):
+    """(list, index, stmt) for every statement of the function (not nested scopes)."""
+    stack = [fn.body]  # type: ignore[attr-defined]
+    while stack:
+        body = stack.pop()
+        for i, st in enumerate(body):
+            yield body, i, st
+            if isinstance(st, _SCOPES):
+                continue
+            for fld in ("body", "orelse", "finalbody"):
+                sub = getattr(st, fld, None)
+                if isinstance(sub, list) and sub and isinstance(sub[0], ast.stmt):
+                    stack.append(sub)
+            if isinstance(st, ast.Try):
+                for h in st.handlers:
+                    stack.append(h.body)
+
+
+def settle_temporaries(relpath: str, tree: ast.Module) -> Tuple[int, int]:
+    """Bring the set of single-use temporaries of every function back to the reference: a NEW single-assignment local (not in the
+    reference function) is inlined into its uses; a MISSING reference local whose defining expression still occurs (exactly once) in
+    the function is re-introduced in front of the statement that contains it. Both are semantics-preserving views for analysis."""
+    import copy
+    ref = reference().get(relpath)
+    if not ref:
+        return 0, 0
+    removed = added = 0
+    known_functions = set(ref.get("__functions__", []))
+    for q, fn in iter_functions(tree):
+        r = ref.get(q)
+        if r is None and q.split("#")[0] in known_functions and "#" not in q:
+            r = {}  # a reference function without locals
+        if not isinstance(r, dict) or q.startswith("__"):
+            continue
+        cur = locals_of(fn)
+        # ---- inline new temporaries
+        new = [v for v in cur if v not in r]
+        for v in new:
+            stores = [n for n in _own_nodes(fn) if isinstance(n, ast.Name) and n.id == v and isinstance(n.ctx, ast.Store)]
+            if len(stores) != 1:
+                continue
+            site = None
+            for body, i, st in _stmt_lists(fn):
+                if isinstance(st, ast.Assign) and len(st.targets) == 1 and st.targets[0] is stores[0]:
+                    site = (body, i, st)
+            if site is None:
+                continue
+            body, i, st = site
+            # not inside a loop body relative to its uses: keep it simple - all uses must come later in the same statement list or nested in later statements
+            later = body[i + 1:]
+            uses_later = [n for s2 in later for n in ast.walk(s2) if isinstance(n, ast.Name) and n.id == v and isinstance(n.ctx, ast.Load)]
+            all_uses = [n for n in ast.walk(fn) if isinstance(n, ast.Name) and n.id == v and isinstance(n.ctx, ast.Load)]
+            if not all_uses or len(uses_later) != len(all_uses):
+                continue
+            for s2 in later:
+                for node in ast.walk(s2):
+                    for f, val in ast.iter_fields(node):
+                        if isinstance(val, ast.Name) and val.id == v and isinstance(val.ctx, ast.Load):
+                            setattr(node, f, copy.deepcopy(st.value))
+                        elif isinstance(val, list):
+                            for k2, x in enumerate(val):
+                                if isinstance(x, ast.Name) and x.id == v and isinstance(x.ctx, ast.Load):
+                                    val[k2] = copy.deepcopy(st.value)
+            del body[i]
+            removed += 1
+        # ---- re-introduce missing temporaries
+        cur = locals_of(fn)
+        missing = [(v, spec) for v, spec in r.items() if v not in cur and isinstance(spec, list) and len(spec) >= 3]
+        missing.sort(key=lambda t: t[1][1])
+        for v, spec in missing:
+            want = spec[2]
+            names = locals_of(fn)
+            hits = []
+            for body, i, st in _stmt_lists(fn):
+                if isinstance(st, _SCOPES):
+                    continue
+                for f, val in ast.iter_fields(st):
+                    if f in ("body", "orelse", "finalbody", "handlers"):
+                        continue
+                    roots = [val] if isinstance(val, ast.AST) else [x for x in val if isinstance(x, ast.AST)] if isinstance(val, list) else []
+                    for root in roots:
+                        for node in ast.walk(root):
+                            if isinstance(node, ast.expr) and not isinstance(node, (ast.Name, ast.Constant)) and not isinstance(getattr(node, "ctx", None), ast.Store) and _abs(node, names) == want:
+                                hits.append((body, i, st, node))
+            if len(hits) != 1:
+                continue
+            body, i, st, node = hits[0]
+            if isinstance(st, ast.Assign) and st.value is node and len(st.targets) == 1 and isinstance(st.targets[0], ast.Name):
+                continue  # it is simply bound to another name: a rename the signature test did not accept
+            new_name = ast.Name(id=v, ctx=ast.Load())
+            ast.copy_location(new_name, node)
+            for parent in ast.walk(st):
+                for f, val in ast.iter_fields(parent):
+                    if val is node:
+                        setattr(parent, f, new_name)
+                    elif isinstance(val, list):
+                        for k2, x in enumerate(val):
+                            if x is node:
+                                val[k2] = new_name
+            asg = ast.Assign(targets=[ast.Name(id=v, ctx=ast.Store())], value=node, type_comment=None)
+            ast.copy_location(asg, st)
+            ast.fix_missing_locations(asg)
+            body.insert(i, asg)
+            added += 1
+    return removed, added
